@@ -54,4 +54,14 @@ theorem escByte_length_le (c : UInt8) : (escByte c).length ≤ 3 := by
 theorem escByte_length_pos (c : UInt8) : 0 < (escByte c).length := by
   unfold escByte; split <;> simp
 
+/-- one action on a shared value whose calls never change its state -/
+theorem shared_act_frozen {σ : Type} (step : SStep σ) (hf : Frozen step) (w : Shared σ) (ia : Nat × Act) :
+    Shared.act step w ia =
+      ⟨w.st, setStream w.streams ia.1 (Drv.act (fun c e s => (step w.st c e s).1) (w.streams ia.1) ia.2)⟩ := by
+  obtain ⟨i, a⟩ := ia
+  cases a with
+  | feed k => simp [Shared.act, Drv.act]
+  | call cap => simp [Shared.act, Drv.act, hf w.st]
+
+
 end XmppModel.Escape
